@@ -19,14 +19,16 @@ RULE = ("model tie: (1) utils.copypath run on small real filesystems built in a 
         "a-d; source a file / a directory / absent; destination absent with missing ancestors, a shorter / equal / longer file, a "
         "directory, below a file, equal to the source, of one element, relative to the working directory and absolute) vs the extracted "
         "Coq copypath_run: returned/raised and the state of every path of the universe afterwards; (2) Metadata._match_v1 vs the "
-        "extracted match_v1 (outcome per piece and the exact copypath calls; see C13).  End to end: payloads, metafiles (v1, aligned "
-        "v1, v2, hybrid, reference encoder) and scattered search roots as in C13 plus partially matching decoys, destinations that "
+        "extracted match_v1 (outcome per piece and the exact copypath calls; see C13); (3) Metadata._match_v2 vs the extracted extract + "
+        "match_v2 (count and the exact copypath calls; candidates of the recorded size and of other sizes incl. longer files that begin "
+        "with the genuine bytes; metafiles whose recorded root or length was changed; see C13).  End to end: payloads, metafiles (v1, aligned "
+        "v1, v2, hybrid, reference encoder) and scattered search roots as in C13 plus partially matching decoys and longer decoys (genuine bytes then junk, enumerated first), destinations that "
         "already hold correct, wrong same-size, shorter, longer and unrelated files, empty directories and (rarely) a file where a "
         "directory is needed; full recursive snapshots (names, sizes, sha256, modes, mtimes) of every search root, the metafile "
         "directory and the destination before the rebuild, after it and after a second identical rebuild; the runner records every "
         "filesystem-mutating audit event (open for writing, os.mkdir, shutil.copyfile/copymode, os.chmod, os.remove, os.rename, ...).  "
         "Checked: nothing under the search roots or the metafiles differs; no destination entry disappears; a destination file that had "
-        "its full recorded length is unchanged (also its mtime); every created or changed file is at a path some metafile assigns, is "
+        "its full recorded length is unchanged (also its mtime); every created or changed file is at a path some metafile assigns, has the recorded length, is "
         "byte-identical to a search-root file of the recorded name and length, and agrees with the payload on the whole overlap with at "
         "least one piece (v2: the whole file) -- so a same-size decoy none of whose pieces verify is never placed; new directories are "
         "ancestors of assigned paths; the second rebuild changes nothing at all; every mutating event targets the destination.  "
@@ -37,7 +39,7 @@ TRUSTED_BASE = rc.TRUSTED_BASE + [
 ASSUMPTIONS = ["destination disjoint from the search directories and the metafiles (excluded by the property)",
                "no symbolic links; a DIRECTORY standing exactly where a payload file belongs is outside the generated space "
                "(C14_copypath_frame_without_guard_refuted: shutil.copy then writes inside that directory)",
-               "the v2 route has no Coq model; it is covered by the end-to-end search only"]
+               "v2 route: the candidate's root is the HasherV2 model of Model/HasherV2.v (C02); piece length = 16 KiB * 2^k in the theorems"]
 
 WORKERS = 4
 
@@ -170,7 +172,11 @@ def evaluate(ctx, case, res):
         if x is not None and x[0] == "f" and x[1] == e["length"]:
             ctx.fail("full-length-file-altered", inp, "a destination file that has its full recorded length is never altered",
                      {"path": k, "changed": rc.snap_diff({k: x}, {k: y})})
-        elif (e["rel"][-1], y[1], y[2]) not in cands or y[1] != e["length"]:
+        elif y[1] != e["length"]:
+            ctx.fail("written-file-length-differs", inp, "every file written has exactly the length the metafile records",
+                     {"path": k, "size": y[1], "recorded_length": e["length"],
+                      "is_a_candidate": (e["rel"][-1], y[1], y[2]) in cands})
+        elif (e["rel"][-1], y[1], y[2]) not in cands:
             ctx.fail("written-file-not-a-candidate-copy", inp,
                      "everything written is byte-identical to a search-directory file with the recorded name and length",
                      {"path": k, "size": y[1], "recorded_length": e["length"]})
@@ -352,6 +358,7 @@ def copypath_tie(ctx, model_ok):
 def run(ctx, model_ok):
     copypath_tie(ctx, model_ok)
     rc.match_v1_tie(ctx, model_ok)
+    rc.match_v2_tie(ctx, model_ok)
     e2e(ctx)
 
 
